@@ -14,3 +14,4 @@ import VibeProof.Props.C05
 #print axioms VibeProof.C05.C05_conjunct_split
 #print axioms VibeProof.C05.C05_sql_equi_join_is_nested
 #print axioms VibeProof.C05.C05_hash_join_is_sql_join
+#print axioms VibeProof.C05.C05_derived_wrap_identity
